@@ -1291,7 +1291,8 @@ class FortranWriter(LanguageWriter):
                     # We still may need to enforce precedence
                     if (isinstance(parent, UnaryOperation) or
                             (isinstance(parent, BinaryOperation) and
-                             parent.children[1] == node)):
+                             (parent.children[1] is node or
+                              fort_oper == "**"))):
                         # We need brackets to enforce precedence
                         # as a) a unary operator is performed
                         # before a binary operator and b) floating
